@@ -8,6 +8,8 @@ any cache limit, with eviction (`Release`, pruning) possible at every moment.
 import SemaModel.C11.Witness
 import SemaModel.C11.Skeleton
 import SemaModel.Generated.FactsC11
+set_option linter.unusedSimpArgs false
+set_option linter.unusedVariables false
 namespace Sema.C11
 open Sema.Gen
 
